@@ -5,7 +5,7 @@ import os
 import re
 import zlib
 
-from lib import common, tlc, goharness
+from lib import common, tlc, goharness, findings
 from lib.common import InfraError, Violation
 
 OVERLAY = ["/verif/harness/overlay/asserts/zz_verif_assertcheck_test.go"]
@@ -102,7 +102,8 @@ def run(ctx):
         len(rows), m.group(2), len(ev["violations"]), len(ev["mismatches"])))
 
     neg = negative_control(table, rows, got)
-    if not ev["violations"]:
+    # guards are enforced unless there is a violation that is not a listed known finding (which exits 1 anyway)
+    if not findings.classify(ctx.prop, ev["violations"])[1]:
         if ev["mismatches"]:
             mm = ev["mismatches"][0]
             raise InfraError("real code and AssertCheck.tla disagree where the statement does not decide "
@@ -172,8 +173,8 @@ def evaluate(table, rows, got):
             byte_mutants += g["variants"]
             regions["%s/%s" % (e["row"]["cls"], mut)] = g["region"]
         real_acc = g["check"] == "accept" or g["add"] == "accept"
-        if g["check"] == "accept" and g["add"] == "accept":
-            real_accepts += 1
+        if exp == "accept" and g["check"] == "accept" and g["add"] == "accept":
+            real_accepts += 1      # accepting rows of the table that the real code accepts too
         if exp != "accept" and real_acc:
             if mut in BYTE_CLASSES or mut == "sig-alias":
                 for desc in g.get("accepted", []):
